@@ -147,10 +147,10 @@ func c17Respell(r *rand.Rand, rows reflect.Value) (reflect.Value, map[string]int
 
 func RunC17Repr(ctx *core.Ctx) {
 	ctx.SetRule(c17Rule)
-	ncases := ctx.Scale(6, 60)
+	ncases := ctx.Scale(6, 20)
 	var wg sync.WaitGroup
 	sem := make(chan struct{}, 16)
-	for _, e := range gen.Catalog {
+	for _, e := range gen.WithGeo() {
 		wg.Add(1)
 		sem <- struct{}{}
 		go func(e *gen.Entry) {
